@@ -113,6 +113,9 @@ partial def parseE : List String → Option (TExpr × List String)
   | "mac" :: k :: n :: rest => do
       let k ← k.toNat?; let n ← n.toNat?; let (es, r) ← parseEs n rest; pure (.macroBool k es, r)
   | "list" :: n :: rest => do let n ← n.toNat?; let (es, r) ← parseEs n rest; pure (.listLit es, r)
+  | "lmac" :: f :: n :: rest => do
+      let n ← n.toNat?; let (vs, r1) ← parseVals n rest; let (es, r2) ← parseEs n r1
+      pure (.macroList (f == "1") vs es, r2)
   | _ => none
 where
   parseEs : Nat → List String → Option (List TExpr × List String)
